@@ -145,6 +145,10 @@ Proof. exact (q_no_zero_div O L I c IC). Qed.
 (* exp / exp_vartime = repeated multiplication (q_pow a n = a . a ... a, n factors) *)
 Theorem C08_quad_exp_spec : forall a e, (0 <= e)%Z -> q_exp O I a e = q_pow O I a (Z.to_nat e).
 Proof. exact (q_exp_spec O L I c IC). Qed.
+(* packaged: the quadratic extension is itself a field in the sense of FieldOps.v (inv totalised by inv 0 = 0), so
+   every theorem stated "for every FOps with FLaws" (C20 polynomials, ...) applies to it *)
+Theorem C08_quad_is_field : (forall s, s *f s <> qs_disc O c) -> FLaws (q_ops O I).
+Proof. exact (q_laws O L I c IC). Qed.
 End Quad.
 
 (* ================================================================ A.3 CubeExtension<B>, any correct vtable *)
@@ -208,6 +212,8 @@ Theorem C08_cube_no_zero_div : cs_no_root O u v ->
 Proof. exact (c_no_zero_div O L I _ _ _ _ _ _ _ _ IC). Qed.
 Theorem C08_cube_exp_spec : forall a e, (0 <= e)%Z -> c_exp O I a e = c_pow O I a (Z.to_nat e).
 Proof. exact (c_exp_spec O L I _ _ _ _ _ _ _ _ IC). Qed.
+Theorem C08_cube_is_field : Consts -> det <> zero -> cs_no_root O u v -> FLaws (c_ops O I).
+Proof. exact (c_laws O L I _ _ _ _ _ _ _ _ IC). Qed.
 End Cube.
 
 (* ================================================================ A.4 slices (list model of the zero-copy casts) *)
@@ -256,6 +262,7 @@ Print Assumptions C08_quad_inv_spec.
 Print Assumptions C08_quad_div_spec.
 Print Assumptions C08_quad_no_zero_div.
 Print Assumptions C08_quad_exp_spec.
+Print Assumptions C08_quad_is_field.
 Print Assumptions C08_cube_ring.
 Print Assumptions C08_cube_square_spec.
 Print Assumptions C08_cube_mul_base_spec.
@@ -271,6 +278,7 @@ Print Assumptions C08_cube_inv_spec.
 Print Assumptions C08_cube_div_spec.
 Print Assumptions C08_cube_no_zero_div.
 Print Assumptions C08_cube_exp_spec.
+Print Assumptions C08_cube_is_field.
 Print Assumptions C08_quad_slice_roundtrip.
 Print Assumptions C08_cube_slice_roundtrip.
 
@@ -350,6 +358,14 @@ Theorem C08_f62_cube_inv_spec : forall dbg a, a <> c_zero F62_ops ->
 Proof. exact f62_cube_inv_spec. Qed.
 Print Assumptions C08_f62_cube_inv_spec.
 
+(* B.4' hence the five extension fields are fields (FLaws instances usable by every generic theorem of /verif) *)
+Theorem C08_extension_fields_are_fields :
+  FLaws (q_ops F64_ops (f64_x2 F64_ops)) /\ FLaws (q_ops F62_ops (f62_x2 F62_ops)) /\
+  FLaws (q_ops F128_ops (f128_x2 F128_ops)) /\
+  FLaws (c_ops F64_ops (f64_x3 F64_ops)) /\ FLaws (c_ops F62_ops (f62_x3 F62_ops)).
+Proof. exact (conj f64_quad_laws (conj f62_quad_laws (conj f128_quad_laws (conj f64_cube_laws f62_cube_laws)))). Qed.
+Print Assumptions C08_extension_fields_are_fields.
+
 (* B.5 cubic conjugation is a field automorphism of order 3 fixing exactly the base field; the norm is in the base
    field (the debug_asserts of CubeExtension::inv never fire); no zero divisors *)
 Theorem C08_f64_cube_conj_automorphism :
@@ -397,6 +413,28 @@ Theorem C08_executable_instance_agrees :
 Proof. exact executable_instance_agrees. Qed.
 Print Assumptions C08_executable_instance_agrees.
 
+(* B.6' the inverse theorems restated on the executable instance itself (plain Z, canonical residues) *)
+Theorem C08_inv_spec_executable :
+  (forall dbg a0 a1, 0 <= a0 < P64 -> 0 <= a1 < P64 -> (a0, a1) <> (0, 0) ->
+     exists ia, q_inv (zp_ops P64) (f64_x2 (zp_ops P64)) dbg (a0, a1) = Some ia /\
+                f64_ext2_mul (zp_ops P64) (a0, a1) ia = (1, 0))%Z /\
+  (forall dbg a0 a1, 0 <= a0 < P62 -> 0 <= a1 < P62 -> (a0, a1) <> (0, 0) ->
+     exists ia, q_inv (zp_ops P62) (f62_x2 (zp_ops P62)) dbg (a0, a1) = Some ia /\
+                f62_ext2_mul (zp_ops P62) (a0, a1) ia = (1, 0))%Z /\
+  (forall dbg a0 a1, 0 <= a0 < P128 -> 0 <= a1 < P128 -> (a0, a1) <> (0, 0) ->
+     exists ia, q_inv (zp_ops P128) (f128_x2 (zp_ops P128)) dbg (a0, a1) = Some ia /\
+                f128_ext2_mul (zp_ops P128) (a0, a1) ia = (1, 0))%Z /\
+  (forall dbg a0 a1 a2, 0 <= a0 < P64 -> 0 <= a1 < P64 -> 0 <= a2 < P64 -> (a0, a1, a2) <> (0, 0, 0) ->
+     exists ia, c_inv (zp_ops P64) (f64_x3 (zp_ops P64)) dbg (a0, a1, a2) = Some ia /\
+                f64_ext3_mul (zp_ops P64) (a0, a1, a2) ia = (1, 0, 0))%Z /\
+  (forall dbg a0 a1 a2, 0 <= a0 < P62 -> 0 <= a1 < P62 -> 0 <= a2 < P62 -> (a0, a1, a2) <> (0, 0, 0) ->
+     exists ia, c_inv (zp_ops P62) (f62_x3 (zp_ops P62)) dbg (a0, a1, a2) = Some ia /\
+                f62_ext3_mul (zp_ops P62) (a0, a1, a2) ia = (1, 0, 0))%Z.
+Proof.
+  exact (conj f64_quad_inv_exec (conj f62_quad_inv_exec (conj f128_quad_inv_exec (conj f64_cube_inv_exec f62_cube_inv_exec)))).
+Qed.
+Print Assumptions C08_inv_spec_executable.
+
 (* B.7 serialization round trips (canonical residues; p <= 256^nb) *)
 Theorem C08_serde_roundtrip : forall p nb, (0 < p <= 256 ^ Z.of_nat nb)%Z ->
   (forall a rest, (0 <= fst a < p)%Z -> (0 <= snd a < p)%Z -> q_read p nb (q_write nb a ++ rest) = Some (a, rest)) /\
@@ -411,6 +449,15 @@ Proof.
         (conj (c_try_from_bytes_write p nb H) (base_read_canonical p nb))))).
 Qed.
 Print Assumptions C08_serde_roundtrip.
+
+(* converse: a successful read consumed exactly the canonical encoding of the element it returns *)
+Theorem C08_serde_read_inv : forall p nb,
+  (forall bs a rest, (forall b, In b bs -> 0 <= b < 256)%Z -> q_read p nb bs = Some (a, rest) ->
+     bs = q_write nb a ++ rest /\ (0 <= fst a < p)%Z /\ (0 <= snd a < p)%Z) /\
+  (forall bs a rest, (forall b, In b bs -> 0 <= b < 256)%Z -> c_read p nb bs = Some (a, rest) ->
+     bs = c_write nb a ++ rest /\ (0 <= c0 a < p)%Z /\ (0 <= c1 a < p)%Z /\ (0 <= c2 a < p)%Z).
+Proof. intros p nb. exact (conj (q_read_inv p nb) (c_read_inv p nb)). Qed.
+Print Assumptions C08_serde_read_inv.
 
 (* ================================================================ non-vacuity: instances computed by the kernel on
    the executable instance `zp_ops P64` / `zp_ops P62` / `zp_ops P128` (canonical residues) *)
